@@ -12,8 +12,9 @@ STR_POOL = ["ACTIVE", "DONE", "a", "hello world", "", "1", "true", "héllo", "x 
             "- item", "# hash", "A→B", "v1.2.3", "1.0", "null", "a, b", "[x]", "{y}", "**bold**", "tab\there", "日本"]
 ML_STR_POOL = ["line1\nline2", "p\n\nq"]
 INT_POOL = [0, 1, -3, 42, 12345678901234567890]
-FLOAT_POOL = ["1.5", "-0.25", "100000.0", "3.0"]
+FLOAT_POOL = ["1.5", "-0.25", "100000.0", "3.0", "1e-07", "1.23e-05", "-2.5e-09", "1e+16", "0.30000000000000004"]
 ZONE_POOL = [("x", None, "```"), ("", None, "```"), ("raw ::  text\n  K::v", "py", "```"), ("a\n\nb", None, "```"), ("x\n", "json", "```"),
+             ("hard break  \nnext\t", None, "```"), ("a\n\n\n\nb", "txt", "```"), ("\u00a71::LOOKS_LIKE_A_MARKER\n\u00a72::SECOND\ntext", None, "```"), ("   \nend", None, "```"),
              ("```\nin\n```", "md", "````"), ("- **FAKE**: 1\n## H", None, "```"), ('{"a": [1, 2]}', "json", "```")]
 HOLO_POOL = ['["x"∧REQ→§SELF]', '["x"∧REQ]', "[1∧RANGE[1,5]]", '["a"∧ENUM[a,b]]', '["x"∧OPT→§META]']
 COMMENT_POOL = ["note", "TODO: check", "a // b", "x::y"]
@@ -204,6 +205,9 @@ def templates(feats):
         B("CI", [A("X", vint(1)), B("INNER", [A("Y", vstr("deep"))])]),
         B("OUT", [A("P", vint(0)), B("MID", [A("DEPS", vstr("d")), A("Q", vbool(False))])]),
         B("DECISIONS", []), B("EMPTY", []),
+        # nesting deeper than the six heading levels Markdown has (the rendering must still show every level)
+        B("D1", [B("D2", [B("D3", [B("D4", [B("D5", [B("D6", [B("D7", [A("DEEP_LEAF", vstr("bottom")), B("D8", [A("STATUS", vstr("deepest"))])])])])])])])]),
+        A("ZW", vzone("hard break  \nnext\t\n\n\n\nend", None, "```")),
         B("PLAIN", [A("P", vint(1))]),
     ]
     if "sections" in feats:
